@@ -505,7 +505,13 @@ func (e event) rpc() (raft.RPC, chan raft.RPCResponse) {
 		data := encodeState(e.data)
 		size := int64(len(data))
 		if !e.sizeOk {
-			size++
+			// the stream ends early: the announced size is the full snapshot's, the body is cut
+			// short (an empty snapshot cannot be cut: there the announcement is one byte too long)
+			if len(data) > 1 {
+				data = data[:len(data)-1-len(data)/3]
+			} else {
+				size++
+			}
 		}
 		rpc.Command = &raft.InstallSnapshotRequest{RPCHeader: hdr(e.peerID, e.peer), SnapshotVersion: 1, Term: uint64(e.term),
 			LastLogIndex: uint64(e.lastIdx), LastLogTerm: uint64(e.lastTerm), Configuration: raft.EncodeConfiguration(mkCfg(e.cfg)),
